@@ -13,7 +13,7 @@ RULE = ("bounded-exhaustive over byte strings: for every point of the subgroup a
         "distinct by construction; non-trivial = not the all-zero string")
 ASSUMPTIONS = ["vlib/ref.py decode_model is the specification of validating decode (canonical = exactly the bytes encode() produces)",
                "the 'greater' flag follows the library's documented order on internal residues (pinned, see C02)"]
-CONFIGS = ["asm", "c64", "c32"]
+CONFIGS = ["asm", "c64", "c32", "o0"]
 ENC = {(1, True): "g1c", (1, False): "g1u", (2, True): "g2c", (2, False): "g2u"}
 CAPI = {1: "embedded_pairing_bls12_381_g1", 2: "embedded_pairing_bls12_381_g2"}
 
